@@ -25,6 +25,7 @@ fn strategy(tier: Tier) -> BoxedStrategy<Case> {
         derived: false,
         acp: false,
         loose: true,
+        poisson: false,
         depth: 3,
     };
     (
@@ -166,6 +167,14 @@ fn check(c: &Case) -> CheckResult {
     Ok(out)
 }
 
+pub fn decode(d: &mut crate::dec::Dec) -> Case {
+    use crate::dec::*;
+    let g = DecArr { tmax: 30, never: true, derived: false, acp: false };
+    let spec = dec_arr(d, g, 3);
+    let seqs = d.vec(1, 4, |d| (d.range(0, 19), d.vec(0, 16, |d| ((d.byte() as u16) << 8) | d.byte() as u16)));
+    Case { spec, seqs, j1: d.range(0, 39), j2: d.range(0, 39) }
+}
+
 pub fn def() -> PropertyDef {
     PropertyDef {
         id: "C10",
@@ -174,7 +183,7 @@ pub fn def() -> PropertyDef {
             "delta-min prefixes are non-empty, non-decreasing and end with a positive distance (an all-zero prefix denotes an unbounded burst)".into(),
             "Periodic means exactly periodic releases with an arbitrary phase".into(),
         ],
-        subchecks: vec![subcheck("sequences", (12_000, 200_000), strategy, check)],
+        subchecks: vec![subcheck("sequences", (12_000, 200_000), strategy, check).with_decoder(decode, check)],
         extra: None,
     }
 }
